@@ -182,12 +182,39 @@ fn quiet_burst_body(n: usize, manual: bool) -> Result<(), String> {
     Ok(())
 }
 
+fn many_tasks_body(n: usize) -> Result<(), String> {
+    let mut hs = Vec::new();
+    for t in 0..n {
+        hs.push(std::thread::spawn(move || -> Result<(), String> {
+            let mut set = Vec::new();
+            for k in 0..2usize {
+                let i = t * 2 + k;
+                let (tx, rx) = ipc::channel::<u32>().map_err(|e| e.to_string())?;
+                tx.send(i as u32 * 100).map_err(|e| e.to_string())?;
+                set.push((i, Ch { pre: 1, post: 1, by: 0, manual: k == 1, drop_before_convert: false }, tx, rx));
+            }
+            work(set)
+        }));
+    }
+    for h in hs {
+        h.join().map_err(|_| "converting task panicked".to_string())??;
+    }
+    Ok(())
+}
+
 pub fn scenarios(tier: Tier) -> Vec<Scenario> {
     let mut v = Vec::new();
     for (n, manual) in [(9usize, false), (12, true), (33, false)] {
         let mut cfg = sched_cfg();
         cfg.post_points = true;
         v.push(Scenario::new(format!("quiet burst of {} conversions{}", n, if manual { " (manual poll)" } else { "" }), cfg, if tier.is_quick() || n > 12 { 0 } else { 1 }, move || quiet_burst_body(n, manual)));
+    }
+    // conversions from four tasks at once
+    {
+        let mut cfg = sched_cfg();
+        cfg.post_points = true;
+        cfg.strict_deviations = true;
+        v.push(Scenario::new("four converting tasks, two streams each (every non-default choice counts)", cfg, if tier.is_quick() { 1 } else { 2 }, move || many_tasks_body(4)));
     }
     let mut add = |chans: Vec<Ch>, bound: u32| {
         let p = P { chans };
